@@ -1310,6 +1310,13 @@ fn classical_declaration_statement_to_asg_stmt(
             // The important thing is to filter out cases where casting is either
             // not necessary, or not allowed.
             asg::Cast::new(initializer.clone(), lhs_type.clone()).to_texpr()
+        } else if init_type.is_const()
+            && types::equal_base_type(&lhs_type, init_type)
+            && types::equal_up_to_constness(&promoted_type, init_type)
+        {
+            // The initializer is a compile-time constant of a wider type of the same kind
+            // (e.g. `float[32] x = pi;`). This narrowing is allowed; make it explicit.
+            asg::Cast::new(initializer.clone(), lhs_type.clone()).to_texpr()
         } else {
             // Either the type can't be promoted,
             // or promote_types says to promote lhs to rhs, which is allowed
